@@ -59,3 +59,18 @@ def templates(cfg):
 
     out += temporal.templates_for("C07", cfg)
     return out
+
+
+def rejections():
+    """union of tables whose *visible* column names differ is refused when the verb is applied
+    (hidden columns of either operand do not count)"""
+    R = []
+    R.append(("right_subset", TU, lambda p, t, u: t >> p.union(u >> p.select(u.a)), "ValueError"))
+    R.append(("right_subset_dropped", TU, lambda p, t, u: t >> p.union(u >> p.drop(u.b)), "ValueError"))
+    R.append(("left_subset", TU, lambda p, t, u: t >> p.select(t.a) >> p.union(u), "ValueError"))
+    R.append(("disjoint_renamed", TU, lambda p, t, u: t >> p.union(u >> p.rename({"a": "z"})), "ValueError"))
+    R.append(("right_extra", TU, lambda p, t, u: t >> p.union(u >> p.mutate(z=u.a + 1)), "ValueError"))
+    R.append(("right_subset_distinct", TU, lambda p, t, u: t >> p.union(u >> p.select(u.b), distinct=True), "ValueError"))
+    R.append(("right_subset_3", TU3, lambda p, t, u: t >> p.union(u >> p.select(u.a, u.c)), "ValueError"))
+    R.append(("grouped_left", TU, lambda p, t, u: t >> p.group_by(t.a) >> p.union(u), ("ValueError", "TypeError")))
+    return R
